@@ -376,11 +376,14 @@ def step (st : St) (line : String) : St × String :=
     let status := ((kv? ows "status").bind String.toNat?).getD 0
     let alive := kv? ows "alive" == some "1"
     let what := (kv? rest "what").getD "?"
-    let kind := if what.startsWith "body:" then "body" else "segment"
+    let kind := if what.startsWith "body:" then "body" else if what.startsWith "hdr:" then "header" else "segment"
     match kv? ows "panic" with
     | some p => (st, fail "oracle" s!"no_panic panic={p} status={status}")
     | Option.none =>
-      if status == 0 then (st, fail "oracle" "no_panic no-response")
+      -- a request with a hostile header may be dropped by the HTTP layer without an answer
+      if status == 0 && kind == "header" then
+        (if alive then (st, "ok fuzz:header/closed") else (st, fail "oracle" "no_panic daemon-down"))
+      else if status == 0 then (st, fail "oracle" "no_panic no-response")
       else if !alive then (st, fail "oracle" "no_panic daemon-down")
       else (st, s!"ok fuzz:{kind}/{if status < 300 then "2xx" else if status < 400 then "3xx" else if status == 400 then "400" else if status == 404 then "404" else if status == 405 then "405" else if status < 500 then "4xx" else "5xx"}")
   | _ => (st, "bad-op " ++ opS)
